@@ -7,8 +7,9 @@ real interpreter once over real NumPy and once over vt.symnp; value, nesting and
 import ast, json, os, subprocess, sys, math
 
 ROOT = os.path.dirname(os.path.dirname(os.path.abspath(__file__)))
-SUITES = ["/repo/tests/test_suite.py", "/repo/tests/test_extra_suite.py", "/repo/tests/test_eval_monad_list.py",
-          "/repo/tests/test_reshape_strings.py", "/repo/tests/test_prog.py"]
+_REPO = os.environ.get("VT_REPO", "/repo")
+SUITES = [_REPO + "/tests/test_suite.py", _REPO + "/tests/test_extra_suite.py", _REPO + "/tests/test_eval_monad_list.py",
+          _REPO + "/tests/test_reshape_strings.py", _REPO + "/tests/test_prog.py"]
 
 
 def cases():
